@@ -33,6 +33,20 @@ CLAIMED = {
             "Trusted: Coq kernel; hand model of *Sel.match / Selection / sel / Fn.filter / Distribution.filter / Fn.merge in coq/Model/Gfi.v tied to /repo by "
             "harness/worker_sel.py + coq/Model/CorrSel.v (runs natively, no overlay). No axioms.",
             "Coq proof by structural induction over selection syntax and choice maps + exhaustive/differential correspondence (vm_compute)", "7/C16"),
+    "C12": ("Theorem C12_systematic_floor_ceil: for EVERY non-negative weight vector with positive total (0 = -inf log weight), every N>=1 and EVERY offset u=a/b in (0,1), "
+            "particle i gets floor(N w_i) or ceil(N w_i) copies (exact integer model of cumsum/searchsorted; proof by counting positions below each cumulative weight); zero weight => no copies; "
+            "resample: each output particle is the whole input particle at its index, weights reset, diagnostics = pre-resampling normalised weights, exp(lml) unchanged (field identity in Q). "
+            "E[copies]=N w_i is not mechanised (partial).",
+            "Trusted: Coq kernel; hand model coq/Model/Resample.v of systematic_resample/resample_vectorized_trace/resample/log_marginal_likelihood over exact integers/rationals; "
+            "correspondence harness/worker_resample.py scripts the offset (monkeypatching smc.uniform), skips exact float ties, compares indices exactly and lml within 5e-5; "
+            "the diagnostic-weight clause is compared in the harness with tolerance 1e-5. No axioms.",
+            "Coq proof (counting argument over all offsets) + differential correspondence (vm_compute)", "7/C12"),
+    "C18": ("Theorems for ANY kernel, any per-step randomness, all n_steps/burn_in/thinning>=1: traces[i] = state after burn+i*thin+1 kernel applications, accepts[i] = that step's flag, "
+            "result = the slice burn::thin of the un-thinned run with the same randomness, n_steps = ceil((n-burn)/thin), accepted count = number of true retained flags. "
+            "Multi-chain: per-lane equality with the single-chain result and leading chain axis are checked by the correspondence only (independence of chains rests on C06-C08).",
+            "Trusted: Coq kernel; hand model coq/Model/Chain.v (scan + arange + index selection); correspondence harness/worker_chain.py runs chain() with scripted deterministic "
+            "kernels (incl. one saving a second diagnostic) for 1 and 3 chains and the real mh kernel under seed (thinned vs un-thinned with the same key, float bit patterns). No axioms.",
+            "Coq proof by induction over the step list + differential correspondence (vm_compute)", "7/C18"),
     "C05": ("Theorem C05_history_coherent: after ANY finite history of update/regenerate/mh-shaped/mala-hmc-shaped moves (accepted or rejected) and identity round trips "
             "the trace is coherent w.r.t. its recorded arguments (induction over the history); update weights telescope. 'Observed addresses keep their values' is judged "
             "per case by the correspondence only.",
